@@ -115,7 +115,8 @@ def run(chk):
     # without the nonzero guard (D29) / the tie of the multipliers (D33) / a group wide enough for squares of n-bit roots (D49, the code AS IT IS) / derived generators (D50)
     for probe in ("KeyProofDeps.asis.cfg", "KeyProofDeps.asis2.cfg", "KeyProofDeps.asis3.cfg", "KeyProofDeps.asis4.cfg", "KeyProofDeps.asis5.cfg"):
         r = vplib.tlc("KeyProofDeps", probe, timeout=300, allow_fail=True)
-        if ("BranchHidden" if probe.endswith("asis5.cfg") else "Sound") not in r.invariant_violated:
+        want = "BranchHidden" if probe.endswith("asis5.cfg") else "Sound"
+        if want not in r.invariant_violated and ("invariant of %s is equal to FALSE" % want) not in (r.error or "") + r.out:
             raise vplib.Machinery("KeyProofDeps: %s should violate Sound (vacuity)" % probe)
     g = vplib.tlc_mc("KeyProofDepsGen", "KeyProofDeps.gen.cfg", workers=1, timeout=600)
     scen = sorted(set(g.tagged_raw_json("K")))
